@@ -8,6 +8,8 @@ use std::collections::BTreeMap;
 use std::future::Future;
 use std::pin::Pin;
 use std::sync::atomic::{AtomicUsize, Ordering};
+#[allow(unused_imports)]
+use std::sync::atomic::AtomicBool;
 use std::sync::Arc;
 use std::task::{Context, Poll, Waker};
 
@@ -192,7 +194,8 @@ pub fn exec(le: &mut LockEnv, op: &Op) -> Option<String> {
         ("write_fut", LockObj::R(l)) => Box::pin(async move { Guard::Wr(l.write_async().await) }),
         _ => return Some("unsupported".into()),
       };
-      le.futs.insert(f, LFut { fut: Some(fut), gname, cw: Arc::new(CountWaker { wakes: AtomicUsize::new(0) }) });
+      let cw = CountWaker::new(&f);
+      le.futs.insert(f, LFut { fut: Some(fut), gname, cw });
       "ok".into()
     }
     ("poll", _) => {
@@ -223,8 +226,9 @@ pub fn exec(le: &mut LockEnv, op: &Op) -> Option<String> {
     },
     ("dropfut", _) | ("drop", _) => match le.futs.remove(op.arg(1)) {
       Some(s) => {
+        let woken = s.fut.is_some() && s.cw.wakes.load(Ordering::Relaxed) > 0;
         drop(s);
-        "ok".into()
+        if woken { "ok:woken".into() } else { "ok".into() }
       }
       None => "invalid:nofut".into(),
     },
